@@ -351,6 +351,10 @@ class Machine:
         if len(real) != n:
             return self.fail("view-disagreement",
                              "%s len()=%d, list has %d" % (tag, len(real), n))
+        if mc.cls in CLASSES and type(real) is not CLASSES[mc.cls]:
+            return self.fail("class-changed", "%s is a %s now, it was "
+                             "created as %s" % (tag, type(real).__name__,
+                                                mc.cls))
         if self.check_level < 1:
             return None
         try:
@@ -441,6 +445,19 @@ class Machine:
                 if not (len(ga) == len(vals) and all(
                         self.same(a, b) for a, b in zip(ga, vals))):
                     bad("m.getall(%r)" % k, ga)
+                # what getall() hands out is the caller's to keep and to
+                # change: doing so must not reach the container
+                if isinstance(ga, list):
+                    ga.append(SENT)
+                    ga.reverse()
+                    g2 = real.getall(k)
+                    if not (len(g2) == len(vals) and all(
+                            self.same(a, b) for a, b in zip(g2, vals))):
+                        bad("m.getall(%r) after the caller changed the "
+                            "list it got from an earlier getall()" % k, g2)
+                    if not self.same(real[k], vals[0]):
+                        bad("m[%r] after the caller changed a getall() "
+                            "result" % k, real[k])
                 for j in range(-len(pos), len(pos)):
                     if real.key_index(k, j) != pos[j]:
                         bad("m.key_index(%r,%d)" % (k, j),
